@@ -59,6 +59,7 @@ func (a attrSpec) coq() string {
 }
 
 type scen struct {
+	Family    string            `json:"family"`
 	Level     string            `json:"level"`
 	Override  map[string]string `json:"override,omitempty"`
 	Format    string            `json:"format"`
@@ -68,13 +69,12 @@ type scen struct {
 	OtherCrit []string          `json:"other_critical"`
 	OtherNon  []string          `json:"other_noncritical,omitempty"`
 	NonString bool              `json:"nonstring_critical"`
-	Auth      int               `json:"auth"`
+	Auth      int               `json:"auth"` // 0 anchor found, 1 store load error, 2 empty store, 3 chain not anchored
 	Identity  bool              `json:"identity_ok"`
 	Expired   bool              `json:"expired"`
 	TsOK      bool              `json:"timestamp_ok"`
-	RevOK     bool              `json:"revocation_ok"`
-	RevMode   int               `json:"revocation_mode"` // 0 ok, 1 revoked, 2 unknown, 3 validator error
-	PM        int               `json:"pm"` // 0 nil, 1 not installed, 2 metadata error, 3 plugin
+	RevMode   int               `json:"revocation"` // 0 ok, 1 revoked, 2 unknown, 3 validator error
+	PM        int               `json:"pm"`         // 0 nil, 1 not installed, 2 metadata error, 3 plugin
 	Version   string            `json:"plugin_version,omitempty"`
 	Caps      []string          `json:"caps,omitempty"` // TI, Rev, Other
 	RespErr   bool              `json:"plugin_error"`
@@ -85,6 +85,7 @@ type scen struct {
 	ObsErr     string   `json:"obs_err"`
 	ObsResults []string `json:"obs_results"`
 	ObsBuilt   bool     `json:"obs_verifier_built"`
+	ObsEnf     string   `json:"obs_enforcement,omitempty"`
 }
 
 type envKey struct {
@@ -125,15 +126,36 @@ func sameErr(a, b error) (eq bool) {
 	return a == b
 }
 
+// order of actions for the Go-side monotonicity check: enforce <= log <= skip
+func actRank(a trustpolicy.ValidationAction) int {
+	switch a {
+	case trustpolicy.ActionEnforce:
+		return 0
+	case trustpolicy.ActionLog:
+		return 1
+	}
+	return 2
+}
+
+var vTypes = []trustpolicy.ValidationType{trustpolicy.TypeIntegrity, trustpolicy.TypeAuthenticity, trustpolicy.TypeAuthenticTimestamp, trustpolicy.TypeExpiry, trustpolicy.TypeRevocation}
+
+type lv struct {
+	name string
+	ov   map[string]string
+	enf  [5]int // ranks per vTypes, asked from the real GetVerificationLevel
+	key  string
+}
+
 func run(a *Args) error {
 	rng := NewRng(a.Seed)
 	prelude := "From NV Require Import Base Regex Generated C02_Levels VerifyCore C02_Model.\nOpen Scope string_scope.\n"
 	w := NewCaseWriter(a, "C02", prelude, "case", "run")
-	w.Rule = "scenarios realised on the real verifier.Verify: every (base level, legal override) combination cycled (all 24 enforcement maps) x {trust anchor found, store load error, empty store, untrusted chain} x identity match x expired x certificate-time valid x revocation ok/revoked x plugin situation {none, malformed attributes, no manager, not installed, metadata error, invalid or too low version, no verification capability, trusted-identity, revocation, both, either order, with foreign capabilities} x verdicts {success, failure, missing, nil} x critical attributes {none, processed, unprocessed, integer-labelled}, both envelope formats; plus illegal levels/overrides. non-trivial = at least one failed validation or a plugin attribute present; distinct = distinct scenario tuples"
+	w.Rule = "scenarios realised on the real verifier.Verify. Family table: every enforcement map reachable from {strict,permissive,audit} x legal overrides (24 maps, a random (level, override) representative each) x every subset of simultaneously failing native validations {trust store authenticity, identity, expiry, certificate time, revocation} (quick) resp. the full product {anchor found, load error, not anchored} x identity x expired x certificate time x revocation {ok, revoked, unknown, validator error} (thorough) x plugin situation {none, not installed, version too low, no verification capability, trusted-identity, revocation, both} x verdicts {success, failure, missing} x critical attributes {none, processed, unprocessed}; the cells that differ only in the map form a group on which monotonicity of acceptance is checked directly. Family random: malformed plugin headers, blank names, missing manager, metadata error, invalid versions, capability orders with foreign capabilities, plugin errors, nil verdict entries, non-critical attributes, integer-labelled critical attributes (COSE), corrupted envelopes, both envelope formats. Family versions: (plugin version, demanded minimum) pairs around SemVer precedence. Family corpus: the fixed defects and the known finding. Family illegal: level/override combinations GetVerificationLevel must refuse. non-trivial = at least one failed validation or a plugin header / extended attribute present; distinct = distinct scenario tuples"
 	w.Assumptions = []string{
 		"plugin metadata lists each verification capability at most once (wf_sc)",
 		"semver validity/order of plugin versions are oracle facts computed with golang.org/x/mod/semver on a fixed version table (semantics proved in C20)",
-		"native validation facts (authentic, identity, expiry, certificate time, revocation) are realised with real certificates, stores and validators and confirmed per case by construction of the scenario; their own semantics are C03/C04/C05/C06",
+		"native validation facts (authentic, identity, expiry, certificate time, revocation) are realised with real certificates, stores and validators; their own semantics are C03/C04/C05/C06",
+		"the level seen by processSignature is the one GetVerificationLevel returns for the statement (model: C02_Levels.get_level over Generated.v)",
 	}
 	now := time.Now()
 	good := NewChain("c02 good", 3, now.Add(-96*time.Hour), now.Add(96*time.Hour))
@@ -164,6 +186,11 @@ func run(a *Args) error {
 				attrs = append(attrs, signature.Attribute{Key: o, Critical: true, Value: "v-" + o})
 			}
 		}
+		if k.othernon != "" {
+			for _, o := range strings.Split(k.othernon, ",") {
+				attrs = append(attrs, signature.Attribute{Key: o, Critical: false, Value: "n-" + o})
+			}
+		}
 		if k.nonstring {
 			attrs = append(attrs, signature.Attribute{Key: int64(1000), Critical: true, Value: "int-labelled"})
 		}
@@ -191,18 +218,29 @@ func run(a *Args) error {
 				c = []byte("not an envelope")
 			}
 			b = c
-		} else if _, err := CoreVerify(k.format, b); err != nil {
-			panic(fmt.Sprintf("c02: oracle rejects a fresh envelope: %v", err))
+		} else {
+			// ground truth from notation-core-go: the envelope verifies and carries the attributes as intended
+			content, err := CoreVerify(k.format, b)
+			if err != nil {
+				panic(fmt.Sprintf("c02: oracle rejects a fresh envelope: %v", err))
+			}
+			nCrit, nNon := 0, 0
+			for _, at := range content.SignerInfo.SignedAttributes.ExtendedAttributes {
+				if at.Critical {
+					nCrit++
+				} else {
+					nNon++
+				}
+			}
+			if nCrit+nNon != len(attrs) {
+				panic(fmt.Sprintf("c02: envelope carries %d extended attributes, wanted %d", nCrit+nNon, len(attrs)))
+			}
 		}
 		envCache[k] = b
 		return b
 	}
 
-	// all legal (level, override) combinations, cycled
-	type lv struct {
-		name string
-		ov   map[string]string
-	}
+	// all legal (level, override) combinations; the effective map is asked from the real code
 	var levels []lv
 	opt := func(t string, acts ...string) []map[string]string {
 		out := []map[string]string{{}}
@@ -217,18 +255,40 @@ func run(a *Args) error {
 				for _, o3 := range opt("expiry", "enforce", "log") {
 					for _, o4 := range opt("revocation", "enforce", "log", "skip") {
 						m := map[string]string{}
+						ov := map[trustpolicy.ValidationType]trustpolicy.ValidationAction{}
 						for _, o := range []map[string]string{o1, o2, o3, o4} {
 							for k, v := range o {
 								m[k] = v
+								ov[trustpolicy.ValidationType(k)] = trustpolicy.ValidationAction(v)
 							}
 						}
-						levels = append(levels, lv{n, m})
+						l := lv{name: n, ov: m}
+						sv := trustpolicy.SignatureVerification{VerificationLevel: n, Override: ov}
+						if vl, err := sv.GetVerificationLevel(); err == nil && vl != nil {
+							for i, t := range vTypes {
+								l.enf[i] = actRank(vl.Enforcement[t])
+							}
+							l.key = fmt.Sprint(l.enf)
+						} else {
+							l.key = "refused"
+						}
+						levels = append(levels, l)
 					}
 				}
 			}
 		}
 	}
 	Shuffle(rng, levels)
+	byMap := map[string][]lv{}
+	var mapKeys []string
+	for _, l := range levels {
+		if _, ok := byMap[l.key]; !ok {
+			mapKeys = append(mapKeys, l.key)
+		}
+		byMap[l.key] = append(byMap[l.key], l)
+	}
+	sort.Strings(mapKeys)
+	w.Set("enforcement_maps_reached_by_legal_overrides", len(mapKeys))
 
 	versions := []string{"1.2.0", "1.2.0", "1.2.0", "0.9.0", "2.0.0-rc.1", "v1", "1.2"}
 	minvers := []string{"1.0.0", "1.2.0", "1.10.0", "2.0.0", "1.0", "  ", "x"}
@@ -236,11 +296,12 @@ func run(a *Args) error {
 	otherSets := [][]string{{}, {}, {"foo"}, {"bar", "foo"}}
 
 	var id int64
-	exec := func(s *scen) {
+	// exec realises one scenario; returns whether the verifier accepted (nil error)
+	exec := func(s *scen) (ran, accepted bool) {
 		my := id
 		id++
 		if !w.Want(my) {
-			return
+			return false, false
 		}
 		// ---- realise ----
 		ov := map[trustpolicy.ValidationType]trustpolicy.ValidationAction{}
@@ -270,12 +331,21 @@ func run(a *Args) error {
 		var results []*revresult.CertRevocationResult
 		for i := 0; i < nChain; i++ {
 			r := revresult.ResultOK
-			if !s.RevOK && i == 0 {
-				r = revresult.ResultRevoked
+			if i == 0 {
+				switch s.RevMode {
+				case 1:
+					r = revresult.ResultRevoked
+				case 2:
+					r = revresult.ResultUnknown
+				}
 			}
 			results = append(results, &revresult.CertRevocationResult{Result: r})
 		}
-		script, revCalls := NewRevScript(results, nil)
+		var revErr error
+		if s.RevMode == 3 {
+			revErr = errors.New("mock: validator failure")
+		}
+		script, revCalls := NewRevScript(results, revErr)
 		opts := verifier.VerifierOptions{OCITrustPolicy: doc, RevocationCodeSigningValidator: script.Validator()}
 		var mgr *MockManager
 		var plug *MockPlugin
@@ -323,8 +393,9 @@ func run(a *Args) error {
 		obs := "None"
 		if err == nil {
 			s.ObsBuilt = true
-			env := getEnv(envKey{s.Format, s.Plugin, s.MinVer, strings.Join(s.OtherCrit, ","), s.NonString, s.Expired, !s.TsOK, s.Integrity})
+			env := getEnv(envKey{s.Format, s.Plugin, s.MinVer, strings.Join(s.OtherCrit, ","), strings.Join(s.OtherNon, ","), s.NonString, s.Expired, !s.TsOK, s.Integrity})
 			outcome, verr := v.Verify(context.Background(), desc, env, notation.VerifierVerifyOptions{ArtifactReference: TestRef, SignatureMediaType: s.Format})
+			accepted = verr == nil
 			// error class
 			errT := "ENone"
 			if verr != nil {
@@ -355,6 +426,13 @@ func run(a *Args) error {
 					}
 					rs = append(rs, CApp("mk_res", vtypeCoq(r.Type), CApp("parse_action", CStr(string(r.Action))), CBool(r.Error != nil)))
 					s.ObsResults = append(s.ObsResults, fmt.Sprintf("%s/%s/failed=%v", r.Type, r.Action, r.Error != nil))
+				}
+				if outcome.VerificationLevel != nil {
+					var e []string
+					for _, t := range vTypes {
+						e = append(e, string(outcome.VerificationLevel.Enforcement[t]))
+					}
+					s.ObsEnf = strings.Join(e, ",")
 				}
 			}
 			var gets []string
@@ -422,55 +500,322 @@ func run(a *Args) error {
 			presp = CApp("PResp", CStrList(s.Processed), verd(s.TI), verd(s.Rev))
 		}
 		minValid := s.MinVer.State == aStr && validSemver[s.MinVer.Val]
-		other := append([]string(nil), s.OtherCrit...)
-		sort.Strings(other)
-		sc := CApp("mk_sc", CBool(s.Integrity), s.Plugin.coq(), s.MinVer.coq(), CBool(minValid), CStrList(other), CBool(s.NonString),
-			CN(int64(s.Auth)), CBool(s.Identity), CBool(s.Expired), CBool(s.TsOK), CBool(s.RevOK), pm, presp)
+		type kv struct {
+			k string
+			c bool
+		}
+		var others []kv
+		for _, o := range s.OtherCrit {
+			others = append(others, kv{o, true})
+		}
+		for _, o := range s.OtherNon {
+			others = append(others, kv{o, false})
+		}
+		sort.Slice(others, func(i, j int) bool { return others[i].k < others[j].k })
+		var otherT []string
+		for _, o := range others {
+			otherT = append(otherT, CPair(CStr(o.k), CBool(o.c)))
+		}
+		sc := CApp("mk_sc", CBool(s.Integrity), s.Plugin.coq(), s.MinVer.coq(), CBool(minValid), CList(otherT), CBool(s.NonString),
+			CN(int64(s.Auth)), CBool(s.Identity), CBool(s.Expired), CBool(s.TsOK), CBool(s.RevMode == 0), pm, presp)
 		in := CApp("mk_input", CStr(s.Level), CMap(s.Override), sc)
 		term := CApp("mk_case", CN(my), in, obs)
-		nontriv := s.Plugin.State != aAbsent || s.Auth != 0 || !s.Identity || s.Expired || !s.TsOK || !s.RevOK || len(s.OtherCrit) > 0 || s.NonString
+		nontriv := s.Plugin.State != aAbsent || s.MinVer.State != aAbsent || s.Auth != 0 || !s.Identity || s.Expired || !s.TsOK || s.RevMode != 0 ||
+			len(s.OtherCrit) > 0 || len(s.OtherNon) > 0 || s.NonString || !s.Integrity
 		key := fmt.Sprintf("%+v", *s)
 		if i := strings.Index(key, "ObsErr"); i > 0 {
 			key = key[:i]
 		}
+		key = strings.Replace(key, "Family:"+s.Family, "", 1)
 		w.Add(my, term, s, key, nontriv)
+		w.Count("family", s.Family)
 		w.Count("level", s.Level)
+		if s.ObsEnf != "" {
+			w.Count("enforcement_map", s.ObsEnf)
+		}
 		w.Count("plugin_attr", fmt.Sprint(s.Plugin.State))
 		w.Count("pm", fmt.Sprint(s.PM))
 		w.Count("obs_err", strings.Trim(strings.SplitN(s.ObsErr, " ", 2)[0], "("))
 		w.Count("auth", fmt.Sprint(s.Auth))
+		w.Count("revocation", fmt.Sprint(s.RevMode))
 		w.Count("built", fmt.Sprint(s.ObsBuilt))
 		nf := 0
-		for _, b := range []bool{s.Auth != 0, !s.Identity, s.Expired, !s.TsOK, !s.RevOK} {
+		for _, b := range []bool{s.Auth != 0, !s.Identity, s.Expired, !s.TsOK, s.RevMode != 0} {
 			if b {
 				nf++
 			}
 		}
 		w.Count("simultaneous_native_failures", fmt.Sprint(nf))
+		return true, accepted
 	}
 
+	base := func(fam string, l lv) *scen {
+		return &scen{Family: fam, Level: l.name, Override: l.ov, Format: MtJWS, Integrity: true, Identity: true, TsOK: true, TI: 1, Rev: 1}
+	}
+
+	// ---- plugin situations of the table family ----
+	// sit: 0 none, 1 not installed, 2 version too low, 3 no verification capability, 4 TI, 5 Rev, 6 both
+	type sitCombo struct{ sit, ti, rev, crit, variant int }
+	var combos [7][]sitCombo
+	for sit := 0; sit < 7; sit++ {
+		tis, revs := []int{1}, []int{1}
+		if sit == 4 || sit == 6 {
+			tis = []int{1, 2, 0}
+		}
+		if sit == 5 || sit == 6 {
+			revs = []int{1, 2, 0}
+		}
+		for _, ti := range tis {
+			for _, rv := range revs {
+				for crit := 0; crit < 3; crit++ {
+					combos[sit] = append(combos[sit], sitCombo{sit, ti, rv, crit, 0})
+				}
+			}
+		}
+	}
+	applySit := func(s *scen, c sitCombo, r *Rng) {
+		switch c.crit { // 0 none, 1 processed, 2 unprocessed
+		case 1:
+			s.OtherCrit = append([]string(nil), Pick(r, [][]string{{"foo"}, {"bar", "foo"}})...)
+			s.Processed = append([]string{}, s.OtherCrit...)
+			if r.Bool() {
+				s.Processed = append([]string{"extra"}, s.Processed...)
+			}
+		case 2:
+			s.OtherCrit = append([]string(nil), Pick(r, [][]string{{"foo"}, {"bar", "foo"}})...)
+			s.Processed = append([]string{}, s.OtherCrit[:len(s.OtherCrit)-1]...)
+		}
+		s.TI, s.Rev = c.ti, c.rev
+		if c.sit == 0 {
+			s.PM = r.Intn(2)
+			return
+		}
+		s.Plugin = attrSpec{State: aStr, Val: "plug"}
+		s.PM = 3
+		s.Version = "1.2.0"
+		if r.Chance(1, 3) {
+			s.MinVer = attrSpec{State: aStr, Val: Pick(r, []string{"1.0.0", "1.2.0"})}
+		}
+		switch c.sit {
+		case 1:
+			s.PM = 1
+		case 2:
+			s.Caps = []string{"TI", "Rev"}
+			if r.Bool() {
+				s.Version, s.MinVer = "0.9.0", attrSpec{State: aStr, Val: "1.0.0"}
+			} else {
+				s.Version, s.MinVer = "1.2.0", attrSpec{State: aStr, Val: "1.10.0"}
+			}
+		case 3:
+			s.Caps = append([]string(nil), Pick(r, [][]string{{}, {"Other"}})...)
+		case 4:
+			s.Caps = append([]string(nil), Pick(r, [][]string{{"TI"}, {"TI"}, {"Other", "TI"}})...)
+		case 5:
+			s.Caps = append([]string(nil), Pick(r, [][]string{{"Rev"}, {"Rev"}, {"Rev", "Other"}})...)
+		case 6:
+			s.Caps = append([]string(nil), Pick(r, [][]string{{"TI", "Rev"}, {"Rev", "TI"}, {"TI", "Other", "Rev"}})...)
+		}
+	}
+
+	// a group: the same scenario under every enforcement map; monotonicity is checked on the implementation directly
+	monoPairs, monoViol := 0, 0
+	group := func(fam string, mk func(s *scen)) {
+		type res struct {
+			enf [5]int
+			acc bool
+			id  int64
+			s   *scen
+		}
+		var rs []res
+		for _, mkKey := range mapKeys {
+			if mkKey == "refused" {
+				continue
+			}
+			l := Pick(rng, byMap[mkKey])
+			s := base(fam, l)
+			mk(s)
+			my := id
+			ran, acc := exec(s)
+			if ran && s.ObsBuilt {
+				rs = append(rs, res{l.enf, acc, my, s})
+			}
+		}
+		if a.Only >= 0 {
+			return
+		}
+		for i := range rs {
+			for j := range rs {
+				le := true
+				for k := 0; k < 5; k++ {
+					if rs[i].enf[k] > rs[j].enf[k] {
+						le = false
+					}
+				}
+				if i != j && le {
+					monoPairs++
+					if rs[i].acc && !rs[j].acc {
+						monoViol++
+						w.ImplViolation(rs[j].id, fmt.Sprintf("acceptance is not monotone: the same signature is accepted under the stricter map of case %d and rejected under this more permissive one", rs[i].id), rs[j].s, "")
+					}
+				}
+			}
+		}
+	}
+
+	// 1. corpus: the scenarios of the fixed defects and of the known finding
+	strict := lv{name: "strict"}
+	corp := func(f func(s *scen)) {
+		s := base("corpus", strict)
+		f(s)
+		exec(s)
+	}
+	// F12a: critical attribute, no plugin named
+	corp(func(s *scen) { s.OtherCrit = []string{"foo"} })
+	// 8993cd3: integer-labelled critical attribute (COSE), without and with plugin
+	corp(func(s *scen) { s.Format = MtCOSE; s.NonString = true })
+	corp(func(s *scen) {
+		s.Format = MtCOSE
+		s.NonString = true
+		s.Plugin = attrSpec{State: aStr, Val: "plug"}
+		s.PM, s.Version, s.Caps = 3, "1.2.0", []string{"TI"}
+	})
+	// F12b (known finding): plugin with only the revocation capability, revocation skipped, critical attribute
+	corp(func(s *scen) {
+		s.Override = map[string]string{"revocation": "skip"}
+		s.OtherCrit = []string{"foo"}
+		s.Plugin = attrSpec{State: aStr, Val: "plug"}
+		s.PM, s.Version, s.Caps = 3, "1.2.0", []string{"Rev"}
+	})
+	// lone critical min-version attribute
+	corp(func(s *scen) { s.MinVer = attrSpec{State: aStr, Val: "1.0.0"} })
+	// 089b7ea: a non-critical extended attribute without plugin must not fail
+	corp(func(s *scen) { s.OtherNon = []string{"note"} })
+	// non-critical attribute, plugin executed: listed as processed / not listed
+	corp(func(s *scen) {
+		s.OtherNon = []string{"note"}
+		s.Processed = []string{"note"}
+		s.Plugin = attrSpec{State: aStr, Val: "plug"}
+		s.PM, s.Version, s.Caps = 3, "1.2.0", []string{"TI"}
+	})
+	corp(func(s *scen) {
+		s.OtherNon = []string{"note"}
+		s.Plugin = attrSpec{State: aStr, Val: "plug"}
+		s.PM, s.Version, s.Caps = 3, "1.2.0", []string{"TI"}
+	})
+
+	// 2. illegal levels / overrides: the verifier must not be constructed
+	illegal := []lv{
+		{name: "strict", ov: map[string]string{"integrity": "log"}},
+		{name: "strict", ov: map[string]string{"integrity": "enforce"}},
+		{name: "permissive", ov: map[string]string{"authenticity": "skip"}},
+		{name: "audit", ov: map[string]string{"expiry": "skip"}},
+		{name: "strict", ov: map[string]string{"authenticTimestamp": "skip"}},
+		{name: "strict", ov: map[string]string{"revocation": "ignore"}},
+		{name: "strict", ov: map[string]string{"Revocation": "skip"}},
+		{name: "strict", ov: map[string]string{"revocations": "log"}},
+		{name: "strict", ov: map[string]string{"expiry": ""}},
+		{name: "strict", ov: map[string]string{"": "log"}},
+		{name: "skip", ov: map[string]string{"revocation": "skip"}},
+		{name: "skip", ov: map[string]string{"expiry": "log"}},
+		{name: "Strict"}, {name: ""}, {name: "custom"}, {name: "strict "},
+		{name: "audit", ov: map[string]string{"revocation": "skip", "authenticity": "skip"}},
+	}
+	for _, l := range illegal {
+		exec(base("illegal", l))
+	}
+
+	// 3. plugin version against the demanded minimum
+	verPairs := [][2]string{{"1.2.0", "1.2.0"}, {"1.2.0", "1.10.0"}, {"1.10.0", "1.2.0"}, {"0.9.0", "1.0.0"}, {"2.0.0", "1.0.0"},
+		{"2.0.0-rc.1", "2.0.0"}, {"2.0.0", "2.0.0-rc.1"}, {"1.0.0", "2.0.0"}, {"1.2.0", "1.0"}, {"1.2", "1.0.0"}, {"v1", "1.0.0"}, {"1.2.0", "x"}}
+	for _, vp := range verPairs {
+		for _, ln := range []string{"strict", "audit"} {
+			s := base("versions", lv{name: ln})
+			s.Plugin = attrSpec{State: aStr, Val: "plug"}
+			s.MinVer = attrSpec{State: aStr, Val: vp[1]}
+			s.PM, s.Version, s.Caps = 3, vp[0], []string{"TI", "Rev"}
+			exec(s)
+		}
+	}
+
+	// 4. the table
+	if a.Tier != "thorough" {
+		// every subset of simultaneously failing native validations x every plugin situation, under every map
+		for f := 0; f < 32; f++ {
+			for sit := 0; sit < 7; sit++ {
+				c := combos[sit][(f*5+sit)%len(combos[sit])]
+				r := rng.Fork(uint64(f*7 + sit))
+				auth, rev, format := 1+r.Intn(3), 1+r.Intn(3), Pick(r, []string{MtJWS, MtCOSE})
+				group("table", func(s *scen) {
+					rr := *r // same choices for every map of the group
+					s.Format = format
+					if f&1 != 0 {
+						s.Auth = auth
+					}
+					s.Identity = f&2 == 0
+					s.Expired = f&4 != 0
+					s.TsOK = f&8 == 0
+					if f&16 != 0 {
+						s.RevMode = rev
+					}
+					applySit(s, c, &rr)
+				})
+			}
+		}
+	} else {
+		w.Exhaustive = true
+		n := 0
+		for _, auth := range []int{0, 1, 3} {
+			for nat := 0; nat < 8; nat++ {
+				for rev := 0; rev < 4; rev++ {
+					for sit := 0; sit < 7; sit++ {
+						for _, c := range combos[sit] {
+							r := rng.Fork(uint64(n))
+							n++
+							format := Pick(r, []string{MtJWS, MtCOSE})
+							group("table", func(s *scen) {
+								rr := *r
+								s.Format = format
+								s.Auth = auth
+								s.Identity = nat&1 == 0
+								s.Expired = nat&2 != 0
+								s.TsOK = nat&4 == 0
+								s.RevMode = rev
+								applySit(s, c, &rr)
+							})
+						}
+					}
+				}
+			}
+		}
+	}
+
+	// 5. random scenarios (malformed headers, rare plugin situations, both formats)
 	gen := func(k int) *scen {
 		l := levels[k%len(levels)]
-		s := &scen{Level: l.name, Override: l.ov, Format: Pick(rng, []string{MtJWS, MtCOSE}), Integrity: true,
-			Identity: true, TsOK: true, RevOK: true, TI: 1, Rev: 1}
+		s := base("random", l)
+		s.Format = Pick(rng, []string{MtJWS, MtCOSE})
 		if rng.Chance(1, 40) {
 			s.Integrity = false
 		}
-		// native failures: each with probability ~1/4, at least pairs appear often
 		if rng.Chance(1, 3) {
 			s.Auth = 1 + rng.Intn(3)
 		}
 		s.Identity = !rng.Chance(1, 4)
 		s.Expired = rng.Chance(1, 4)
 		s.TsOK = !rng.Chance(1, 4)
-		s.RevOK = !rng.Chance(1, 4)
+		if rng.Chance(1, 4) {
+			s.RevMode = 1 + rng.Intn(3)
+		}
 		s.OtherCrit = append([]string(nil), Pick(rng, otherSets)...)
+		if rng.Chance(1, 5) {
+			s.OtherNon = append([]string(nil), Pick(rng, [][]string{{"note"}, {"alpha", "note"}})...)
+		}
 		if s.Format == MtCOSE && rng.Chance(1, 12) {
 			s.NonString = true
 		}
-		if rng.Chance(1, 2) {
+		if rng.Chance(1, 3) {
 			// no plugin demanded; sometimes a stray min-version attribute
-			if rng.Chance(1, 10) {
+			if rng.Chance(1, 6) {
 				s.MinVer = attrSpec{State: 1 + rng.Intn(3), Val: "1.0.0"}
 				if s.MinVer.State != aStr {
 					s.MinVer.Val = ""
@@ -511,65 +856,32 @@ func run(a *Args) error {
 		s.Version = Pick(rng, versions)
 		s.Caps = append([]string(nil), Pick(rng, capSets)...)
 		s.RespErr = rng.Chance(1, 12)
-		switch rng.Intn(4) {
+		all := append(append([]string{}, s.OtherCrit...), s.OtherNon...)
+		switch rng.Intn(5) {
 		case 0:
 			s.Processed = nil
 		case 1:
-			if len(s.OtherCrit) > 0 {
-				s.Processed = s.OtherCrit[:len(s.OtherCrit)-1]
+			if len(all) > 0 {
+				s.Processed = all[:len(all)-1]
 			}
+		case 2:
+			s.Processed = append([]string{}, s.OtherCrit...)
 		default:
-			s.Processed = append([]string{"extra"}, s.OtherCrit...)
+			s.Processed = append([]string{"extra"}, all...)
 		}
 		s.TI = Pick(rng, []int{1, 1, 1, 2, 2, 0, 3})
 		s.Rev = Pick(rng, []int{1, 1, 1, 2, 2, 0, 3})
 		return s
 	}
-
-	// 1. corpus: the scenarios of the fixed defects and of the known finding
-	corpus := []*scen{
-		// F12a: critical attribute, no plugin named
-		{Level: "strict", Format: MtJWS, Integrity: true, Identity: true, TsOK: true, RevOK: true, OtherCrit: []string{"foo"}},
-		// F15: integer-labelled critical attribute (COSE)
-		{Level: "strict", Format: MtCOSE, Integrity: true, Identity: true, TsOK: true, RevOK: true, NonString: true},
-		{Level: "strict", Format: MtCOSE, Integrity: true, Identity: true, TsOK: true, RevOK: true, NonString: true,
-			Plugin: attrSpec{State: aStr, Val: "plug"}, PM: 3, Version: "1.2.0", Caps: []string{"TI"}, TI: 1, Rev: 1},
-		// F12b (known finding): plugin with only the revocation capability, revocation skipped, critical attribute
-		{Level: "strict", Override: map[string]string{"revocation": "skip"}, Format: MtJWS, Integrity: true, Identity: true, TsOK: true, RevOK: true,
-			OtherCrit: []string{"foo"}, Plugin: attrSpec{State: aStr, Val: "plug"}, PM: 3, Version: "1.2.0", Caps: []string{"Rev"}, TI: 1, Rev: 1},
-		// lone critical min-version attribute
-		{Level: "strict", Format: MtJWS, Integrity: true, Identity: true, TsOK: true, RevOK: true, MinVer: attrSpec{State: aStr, Val: "1.0.0"}},
-	}
-	for _, s := range corpus {
-		exec(s)
-	}
-	// 2. illegal levels / overrides: the verifier must not be constructed
-	illegal := []lv{
-		{"strict", map[string]string{"integrity": "log"}},
-		{"strict", map[string]string{"integrity": "enforce"}},
-		{"permissive", map[string]string{"authenticity": "skip"}},
-		{"audit", map[string]string{"expiry": "skip"}},
-		{"strict", map[string]string{"authenticTimestamp": "skip"}},
-		{"strict", map[string]string{"revocation": "ignore"}},
-		{"strict", map[string]string{"Revocation": "skip"}},
-		{"strict", map[string]string{"revocations": "log"}},
-		{"strict", map[string]string{"expiry": ""}},
-		{"skip", map[string]string{"revocation": "skip"}},
-		{"skip", map[string]string{"expiry": "log"}},
-		{"Strict", nil}, {"", nil}, {"custom", nil}, {"strict ", nil},
-		{"audit", map[string]string{"revocation": "skip", "authenticity": "skip"}},
-	}
-	for _, l := range illegal {
-		exec(&scen{Level: l.name, Override: l.ov, Format: MtJWS, Integrity: true, Identity: true, TsOK: true, RevOK: true})
-	}
-	// 3. stratified random scenarios
-	n := 3800
+	n := 2200
 	if a.Tier == "thorough" {
-		n = 70000
+		n = 40000
 	}
 	for k := 0; k < n; k++ {
 		exec(gen(k))
 	}
+	w.Set("monotonicity_pairs_checked_on_implementation", monoPairs)
+	w.Set("monotonicity_violations_on_implementation", monoViol)
 	return w.Close()
 }
 
